@@ -50,7 +50,7 @@ ASSUMPTIONS = [
 ]
 BOUNDS = {
     'quick': 'scan: base tuple + *args/** variants per definition, 2 canary variants, all call forms, 6 attack strings; '
-             '16 templates x 8 names; compositions of all accepted direct calls (plain canary); '
+             '32 member/index/call templates x 8 names; compositions of all accepted direct calls (plain canary); '
              'policy: 16 switch settings x 4 whitelists x 4 blacklists x 3 remappings x 10 names x 10 templates',
     'thorough': 'scan: corpus star of 2 values per parameter; compositions for both canary variants; '
                 'policy: 16 x 8 whitelists x 8 blacklists x 4 remappings x 10 names x 10 templates',
